@@ -63,6 +63,12 @@ CFGS = {
     "flow_extras_t": dict(Extras='{"wrongsender", "slippage", "mintto", "direct"}', Principals='{"u1", "admin", "mon1"}'),
     "flow_time_t": dict(MaxTime="9", MaxBatches="3", BatchPeriod="2", Unbonding="3", Returns='{"exact"}', RcvKinds='{"self"}'),
     "flow_t": dict(Users='{"u1", "u2"}', MaxN="6", MaxSeq="3", Returns='{"exact", "short"}', RcvKinds='{"self"}', Principals='{"u1", "admin"}'),
+    # deep, model-checking only (tens of millions of transitions)
+    "flow_deep_t": dict(Users='{"u1", "u2"}', StakeAmts="{3, 5}", UnstakeAmts="{2}", MaxN="8", MaxSeq="4", MaxPk="3", Returns='{"exact", "short"}',
+                        RcvKinds='{"self", "native"}', Principals='{"u1", "admin"}', MaxTime="6", MaxBatches="2"),
+    "ibc_deep_t": dict(Extras='{"stray", "wrongsender"}', Outcomes='{"ok", "err", "timeout"}', SubmitFails="{0, 1}", Returns='{"exact"}', Users='{"u1", "u2"}',
+                       UnstakeAmts="{3}", RewardAmts="{2}", MaxBatches="1", MaxN="6", MaxSeq="5", MaxPk="3", MaxTime="0", Principals='{"u1", "admin", "mon1"}',
+                       RcvKinds='{"self", "native", "staker"}'),
     "flow_treasury_t": dict(Users='{"u1", "u2"}', TreasuryAddr='"treasury"', OracleAddr='""', MaxN="6", MaxSeq="3", Returns='{"exact"}', RcvKinds='{"self"}'),
     "fees_t": dict(Extras='{"toggle"}', UnstakeAmts="{}", RewardAmts="{2, 5, 7}", RcvKinds='{"self"}', Returns="{}", MaxBatches="1",
                    MaxN="12", MaxSeq="5", MaxPk="5", MaxTime="0", Principals='{"admin", "u1", "mon1"}'),
